@@ -902,6 +902,8 @@ def full_case(draw, op, need_grad=True):
         rg[draw(st.integers(0, n - 1))] = True
     c["rg"] = rg
     c["g"] = draw(gen.upstream())
+    c["gdtype"] = draw(st.sampled_from(["same", "same", "other"]))
+    c["wrap"] = draw(st.booleans())
     if op.multi:
         c["oi"] = draw(st.integers(0, 7))
     return c
